@@ -629,6 +629,37 @@ theorem C18_takeover_breaks_registration :
        ∃ s4, step s3 (.unavail 0) = some s4 ∧ s4.joined 0 = true ∧ s4.joined 1 = false) := by
   simp [step, init, upd]
 
+/-! ### sessions: the limit of the model, as a theorem pair (round G) -/
+
+/-- projection to one session: if all channels live on one session, the session-aware refusal IS the
+LTS's refusal — every theorem about `step` (the invariant `Inv` with `reg`, `Owned`, the membership
+specification) holds of it … -/
+theorem C18_session_guard_one_session (sess : Nat → Nat) (h : ∀ c c', sess c = sess c') (s : St) (a : Act) :
+    stepS sess s a = step s a := by
+  cases a <;> simp only [stepS, step]
+  case joinStart c x =>
+    cases hm : s.managed x with
+    | none => simp
+    | some c' => simp [h c' c]
+
+/-- … in particular it keeps the invariant (a joined channel is registered under the address it holds) -/
+theorem C18_session_guard_keeps_reg_on_one_session (sess : Nat → Nat) (h : ∀ c c', sess c = sess c')
+    {s s' : St} {a : Act} (hi : Inv s) (hs : stepS sess s a = some s') : Inv s' :=
+  inv_step hi (C18_session_guard_one_session sess h s a ▸ hs)
+
+/-- mixed sessions: with two channels of one occupant address on two sessions the session-aware
+refusal lets the second take the registration over; the first is joined but no longer registered
+(`reg` fails), and its unavailable presence ends the membership of the second instead -/
+theorem C18_session_guard_breaks_reg :
+    ∃ s, runS (fun c => c) (init fun _ => 0) [.joinStart 0 0, .avail 0, .joinStart 1 0, .avail 0] = some s ∧
+      s.joined 0 = true ∧ s.managed (s.cur 0) ≠ some 0 ∧ ¬ Inv s ∧
+      ∃ s', stepS (fun c => c) s (.unavail 0) = some s' ∧ s'.joined 0 = true ∧ s'.joined 1 = false := by
+  refine ⟨_, rfl, by simp [step, init, upd], by simp [step, init, upd], ?_, ?_⟩
+  · intro hi
+    have := hi.reg 0
+    simp [step, init, upd] at this
+  · simp [stepS, step, init, upd]
+
 /-! ### a presence whose muc#user payload stands twice (round F)
 
 The multiplexer runs the handler once per child it is registered for, each time with the whole
